@@ -19,6 +19,8 @@ PARAM_SETS = {
     'basic': dict(nsteps=30, nfits=2, nuni=2),
     'three-fits-decimal': dict(nsteps=40, nfits=3, nuni=2, dyadic=False),
     'fleet': dict(nsteps=35, nfits=3, nuni=1, fleet=True, switch=False),
+    'fleetheavy': dict(nsteps=40, nfits=3, nuni=1, fleet=True, switch=False, prefill=True, fleet_bias=True,
+                       level_weight=8, fleet_weight=8),
     'long': dict(nsteps=70, nfits=2, nuni=2, malformed=0.15),
     'noswitch-projected': dict(nsteps=40, nfits=3, nuni=1, switch=False, neff=11),
     'pymods': dict(nsteps=45, nfits=2, nuni=2, pymods=True, nattr=8, prefill=True),      # impl-level oracles only
